@@ -50,6 +50,12 @@ func (e event) String() string {
 	if e.Kind == "drain" {
 		return "drain-token-budgets"
 	}
+	if e.Kind == "hang" {
+		return "check-begins-and-the-first-ping-does-not-return(" + strings.Join(e.V, ",") + ")"
+	}
+	if e.Kind == "resume" {
+		return "the-outstanding-ping-returns"
+	}
 	return fmt.Sprintf("advance(%s)", time.Duration(e.D))
 }
 
@@ -126,6 +132,7 @@ type instance struct {
 	pingCh  chan pingReq
 	done    chan struct{}
 	started bool     // the loop has been woken at least once (a round of a server without tokens has no ping to mark it)
+	hung    *pingReq // a ping that has not returned yet although time goes on (event "hang"); answered by "resume"
 	held    *pingReq // first ping of a round, not answered yet: the loop is not waiting on a timer
 	drained bool     // rate-limited configuration: the tokens' budgets have been used up
 }
@@ -287,7 +294,34 @@ func (in *instance) apply(e event, hist []event) {
 		in.drained = true
 	case "advance":
 		vtime.Advance(time.Duration(e.D))
+	case "hang":
+		// the loop is woken, asks the first token, and that ping does not return (a token that ignores
+		// its context): later events advance the clock while it is outstanding
+		if in.hung != nil {
+			return
+		}
+		in.state = e.V
+		if in.wake(hist) {
+			in.started = true
+			select {
+			case r := <-in.pingCh:
+				in.hung = &r
+			case <-time.After(20 * time.Second):
+				loopBroken = true
+				run.Violation("health-loop-stalled", fmt.Sprintf("no ping after the loop's timer fired (20 s of real time); config %+v history %v", in.c, hist), map[string]any{"config": in.c, "history": hist})
+			}
+		}
+	case "resume":
+		if in.hung != nil {
+			h := *in.hung
+			in.hung = nil
+			in.answer(h)
+			in.settle(hist)
+		}
 	case "check":
+		if in.hung != nil {
+			return
+		}
 		in.state = e.V
 		if in.wake(hist) {
 			in.started = true
@@ -357,6 +391,9 @@ func (in *instance) closeAndCheck(hist []event) {
 	defer close(in.done)
 	if loopBroken {
 		return
+	}
+	if in.hung != nil {
+		in.held, in.hung = in.hung, nil
 	}
 	before := loopGoroutines()
 	where := "while the loop waits for its timer"
@@ -450,10 +487,15 @@ func (in *instance) canon() string {
 	for i := len(in.results) - 1; i >= 0 && !in.results[i] && trail < n; i-- {
 		trail++
 	}
-	if in.drained {
-		return fmt.Sprintf("st=%d age=%d trail=%d drained", status, age, trail)
+	hung := ""
+	if in.hung != nil {
+		// what the outstanding ping (and the rest of its round) will answer is part of the state
+		hung = " ping-outstanding:" + strings.Join(in.state, ",")
 	}
-	return fmt.Sprintf("st=%d age=%d trail=%d", status, age, trail)
+	if in.drained {
+		return fmt.Sprintf("st=%d age=%d trail=%d drained%s", status, age, trail, hung)
+	}
+	return fmt.Sprintf("st=%d age=%d trail=%d%s", status, age, trail, hung)
 }
 
 func explore(c cfgT) {
@@ -488,6 +530,28 @@ func explore(c cfgT) {
 	}
 	for _, d := range deltas {
 		alphabet = append(alphabet, event{Kind: "advance", D: int64(d)})
+	}
+	var hangs, whileHung []event
+	if c.Tokens > 0 && !c.RateLimited {
+		for _, v := range vectors {
+			hangs = append(hangs, event{Kind: "hang", V: v})
+		}
+		for _, d := range deltas {
+			whileHung = append(whileHung, event{Kind: "advance", D: int64(d)})
+		}
+		whileHung = append(whileHung, event{Kind: "resume"})
+	}
+	isHung := func(hist []event) bool {
+		h := false
+		for _, e := range hist {
+			switch e.Kind {
+			case "hang":
+				h = true
+			case "resume":
+				h = false
+			}
+		}
+		return h
 	}
 	maxDepth := 3*c.effN() + 6
 	if c.extraDeltas {
@@ -532,6 +596,11 @@ func explore(c cfgT) {
 			continue
 		}
 		evs := alphabet
+		if isHung(nd.hist) {
+			evs = whileHung
+		} else if len(hangs) > 0 {
+			evs = append(append([]event{}, alphabet...), hangs...)
+		}
 		if c.RateLimited {
 			already := false
 			for _, e := range nd.hist {
@@ -627,7 +696,7 @@ func main() {
 	}
 	workerPhase()
 	run.Set("configurations", len(cfgs))
-	run.Rule("state = canonical (healthStatus, age of last completed check saturated just above 3 intervals, trailing failure run) reached by a history of events {check(vector over ok/error/timeout per token), advance(1 | 3 | 3+1ns intervals; thorough adds 1ns and 3 intervals-1ns in one depth-bounded configuration); one configuration with tokens.<name>.ratelimit set adds drain-token-budgets (a key lookup per token through the real handler, once per history)} replayed on a fresh real server.New; BFS to fixpoint per configuration; GET /health compared with the reference predicate in every state; Close (twice) at every transition target and, for every check transition, with the first ping of that check still outstanding: the round in flight may finish, no further round may start, the loop goroutine must end; the real daemon (loopback listeners, virtual grace period) shut down with each of {no fault, a listener whose Close fails, a request still inside a token operation when the grace period ends}: after Daemon.Close the loop goroutine is gone and the tokens are closed; the worker process's own check loop (cmdline/workercmd healthCheck on the real code, getppid / token ping / ticker and check deadline answered by the harness): every history over {ping ok | error | returns the context's error at the deadline | does not return at all (a token that ignores its context), parent replaced by pid 1, parent replaced by a subreaper} up to depth 4 (thorough 6), for a server that is an ordinary process and one that is pid 1: the loop stops the worker exactly when the parent it started under is gone or a check failed, and goes on otherwise. distinct_nontrivial = distinct canonical states other than the initial one")
+	run.Rule("state = canonical (healthStatus, age of last completed check saturated just above 3 intervals, trailing failure run) reached by a history of events {check(vector over ok/error/timeout per token), advance(1 | 3 | 3+1ns intervals; thorough adds 1ns and 3 intervals-1ns in one depth-bounded configuration); one configuration with tokens.<name>.ratelimit set adds drain-token-budgets (a key lookup per token through the real handler, once per history)} replayed on a fresh real server.New; besides a check that completes, a check may begin and have its first ping NOT return (a token that ignores its context) while advance events go on, until a resume event lets it return and the round finish; BFS to fixpoint per configuration; GET /health compared with the reference predicate in every state; Close (twice) at every transition target and, for every check transition, with the first ping of that check still outstanding: the round in flight may finish, no further round may start, the loop goroutine must end; the real daemon (loopback listeners, virtual grace period) shut down with each of {no fault, a listener whose Close fails, a request still inside a token operation when the grace period ends}: after Daemon.Close the loop goroutine is gone and the tokens are closed; the worker process's own check loop (cmdline/workercmd healthCheck on the real code, getppid / token ping / ticker and check deadline answered by the harness): every history over {ping ok | error | returns the context's error at the deadline | does not return at all (a token that ignores its context), parent replaced by pid 1, parent replaced by a subreaper} up to depth 4 (thorough 6), for a server that is an ordinary process and one that is pid 1: the loop stops the worker exactly when the parent it started under is gone or a check failed, and goes on otherwise. distinct_nontrivial = distinct canonical states other than the initial one")
 	run.Assume("token Ping order inside one check is map order; the reference treats the per-check outcome vector as a multiset")
 	run.Assume("goroutine exit after Close is observed by polling runtime.Stack for up to 10 s (correct code exits in microseconds)")
 	run.Assume("the loop is driven only through what it waits on (virtual timers / tickers, token pings); a loop that starts more than 3 rounds of pings per wake-up is held at the next ping, judged and closed there, and not expanded further")
